@@ -1220,10 +1220,11 @@ def main():
         f.write('\n'.join(o) + '\n')
     jout = jout or os.environ.get('C11_SITES_JSON')
     if jout:
-        with open(jout, 'w') as f:
+        with open(jout + '.tmp', 'w') as f:
             json.dump(dict(sites=sites, driver_table=driver_table, problems=problems,
                            mpi2nc=[(c, v) for c, v, _ in (tab or [])], mpi2nc_default=default,
                            mpi_class_values={c: cv for c, v, cv in (tab or [])}), f, indent=1)
+        os.replace(jout + '.tmp', jout)
     print('tr_iosites: %d I/O sites, %d link sites (of %d candidate calls), %d distinct continuations, %d parse tasks%s' % (
         len(io), len(sites) - len(io), len(cand), len(shared), len(tasks),
         ''.join('\n  PROBLEM: ' + x for x in problems)))
